@@ -237,6 +237,17 @@ func FSPut(name string, data []byte) {
 	}
 }
 
+// FSSymlink creates a symbolic link name -> target (absolute paths).
+func FSSymlink(name, target string) {
+	if i := strings.LastIndex(name, "/"); i > 0 {
+		os.MkdirAll(name[:i], 0o755)
+	}
+	os.Remove(name)
+	if err := os.Symlink(target, name); err != nil {
+		panic(err)
+	}
+}
+
 // Env sets an environment variable for the code under test.
 func Env(k, v string) { os.Setenv(k, v) }
 
